@@ -47,6 +47,7 @@ type Scenario struct {
 	Profile regfake.Profile `json:"profile"`
 	LibHas  []int           `json:"libhas"` // blobs present in the other repository (mount sources)
 	Ops     []Op            `json:"ops"`
+	MMT     []string        `json:"mmt,omitempty"` // Repository.ManifestMediaTypes (nil: the default list)
 }
 
 func class(err error) string {
@@ -96,6 +97,7 @@ func runScenario(t *testing.T, sc *Scenario, tr *vh.Tracer) {
 	}
 	repo.PlainHTTP = true
 	repo.Client = &http.Client{Transport: reg}
+	repo.ManifestMediaTypes = sc.MMT
 	// the init record: the universe with digests, media types and sizes
 	dgs, mts, sizes := make([]string, g.N), make([]string, g.N), make([]int64, g.N)
 	all, isman, subj := make([][]int, g.N), make([]bool, g.N), make([]int, g.N)
@@ -108,12 +110,26 @@ func runScenario(t *testing.T, sc *Scenario, tr *vh.Tracer) {
 			}
 		}
 	}
+	art := make([]string, g.N) // artifact type of every manifest: artifactType, else the config media type
+	for k := 1; k <= g.N; k++ {
+		art[k-1] = g.Nodes[k].Art
+		if kd := g.Nodes[k].Kind; kd == "dmanifest" || kd == "dlist" || kd == "cmanifest" {
+			art[k-1] = "" // these carry no artifactType field
+		}
+		if kd := g.Nodes[k].Kind; art[k-1] == "" && (kd == "manifest" || kd == "dmanifest" || kd == "cmanifest") {
+			for _, e := range g.Nodes[k].Edges {
+				if e.Role == "config" {
+					art[k-1] = g.Descs[e.To].MediaType
+				}
+			}
+		}
+	}
 	rtags := make([]string, g.N) // the referrers tag of every node (tag schema)
 	for k := 1; k <= g.N; k++ {
 		rtags[k-1] = strings.Replace(g.Descs[k].Digest.String(), ":", "-", 1)
 	}
 	tr.Emit(map[string]any{"e": "init", "n": g.N, "dg": dgs, "mt": mts, "size": sizes, "all": all, "isman": isman, "subj": subj,
-		"profile": sc.Profile, "repo": repoApp, "lib": repoLib, "libhas": vh.Ints(sc.LibHas), "tags": []string{"t1", "t2"}, "rtags": rtags})
+		"profile": sc.Profile, "repo": repoApp, "lib": repoLib, "libhas": vh.Ints(sc.LibHas), "tags": []string{"t1", "t2"}, "rtags": rtags, "art": art})
 	nodeOf := func(d ocispec.Descriptor) int { return g.NodeOf(d) }
 	for _, op := range sc.Ops {
 		n := op.N
@@ -191,6 +207,15 @@ func runScenario(t *testing.T, sc *Scenario, tr *vh.Tracer) {
 				l = append(l, nodeOf(p))
 			}
 			ret["res"], ret["list"] = class(err), l
+		case "referrers":
+			l := []int{}
+			err := repo.Referrers(ctx, g.Descs[n], op.Ref, func(ds []ocispec.Descriptor) error {
+				for _, p := range ds {
+					l = append(l, nodeOf(p))
+				}
+				return nil
+			})
+			ret["res"], ret["list"] = class(err), l
 		case "tags":
 			var got []string
 			err := repo.Tags(ctx, "", func(ts []string) error { got = append(got, ts...); return nil })
@@ -249,12 +274,46 @@ func rebuild(g *vh.Graph, sc *Scenario) (*vh.Graph, error) {
 	return vh.BuildWith(sc.Nodes, fmt.Sprint("r", sc.ID), g.Blobs)
 }
 
+// manyReferrers is a crafted universe: one image with four referrers of two artifact types (so that a paginated,
+// client-filtered referrers listing has pages without a match between pages with one).
+func manyReferrers() []vh.NodeSpec {
+	e := func(role string, to int) vh.Edge { return vh.Edge{Role: role, To: to} }
+	return []vh.NodeSpec{{}, {Kind: "blob", Edges: []vh.Edge{}},
+		{Kind: "manifest", Edges: []vh.Edge{e("config", 1)}},
+		{Kind: "manifest", Art: "application/vnd.verif.sig", Edges: []vh.Edge{e("subject", 2), e("config", 1)}},
+		{Kind: "artifact", Art: "application/vnd.verif.sbom", Edges: []vh.Edge{e("subject", 2), e("blob", 1)}},
+		{Kind: "manifest", Art: "application/vnd.verif.sig", Ann: map[string]string{"k": "2"}, Edges: []vh.Edge{e("subject", 2), e("config", 1)}},
+		{Kind: "artifact", Art: "application/vnd.verif.sbom", Ann: map[string]string{"k": "2"}, Edges: []vh.Edge{e("subject", 2), e("blob", 1)}}}
+}
+
 func genScenario(rng *rand.Rand, id int) Scenario {
 	n := 3 + rng.Intn(3)
 	succ := vh.RandomSucc(n, rng, 30+rng.Intn(30))
 	nodes := vh.ShapeFromSucc(succ, rng, vh.ShapeOpts{Subjects: true, Artifact: true, Docker: true})
-	sc := Scenario{ID: id, Nodes: nodes, Profile: regfake.Profile{Referrers: true, DigestHdr: rng.Intn(4) != 0, Range: rng.Intn(2) == 0,
-		Mount: rng.Intn(2) == 0, PageLimit: rng.Intn(3)}}
+	crafted := rng.Intn(6) == 0
+	if crafted {
+		nodes = manyReferrers()
+		n = len(nodes) - 1
+	}
+	sc := Scenario{ID: id, Nodes: nodes, Profile: regfake.Profile{Referrers: rng.Intn(3) != 0, DigestHdr: rng.Intn(4) != 0, Range: rng.Intn(2) == 0,
+		Mount: rng.Intn(2) == 0, PageLimit: rng.Intn(3), RefPageLimit: rng.Intn(3), NoServerFilter: rng.Intn(2) == 0}}
+	if rng.Intn(3) == 0 {
+		// a manifest under a media type of the user's own, listed in Repository.ManifestMediaTypes; the registry may insist on
+		// the Accept header
+		for k := n; k >= 1; k-- {
+			hasSubject := false
+			for _, e := range nodes[k].Edges {
+				hasSubject = hasSubject || e.Role == "subject"
+			}
+			if nodes[k].Kind == "manifest" && !hasSubject {
+				nodes[k].Kind, nodes[k].Art = "cmanifest", ""
+				break
+			}
+		}
+		sc.MMT = []string{ocispec.MediaTypeImageManifest, vh.MTCustom, ocispec.MediaTypeImageIndex, vh.MTDManifest, vh.MTDList, vh.MTArtifact}
+		rng.Shuffle(len(sc.MMT), func(i, j int) { sc.MMT[i], sc.MMT[j] = sc.MMT[j], sc.MMT[i] })
+		sc.Profile.StrictAccept = rng.Intn(2) == 0
+	}
 	var blobs, mans []int
 	for k := 1; k <= n; k++ {
 		if vh.IsManifestKind(nodes[k].Kind) {
@@ -275,7 +334,12 @@ func genScenario(rng *rand.Rand, id int) Scenario {
 		}
 	}
 	for i, steps := 0, 8+rng.Intn(10); i < steps; i++ {
-		switch x := rng.Intn(100); {
+		x := rng.Intn(100)
+		if crafted && rng.Intn(2) == 0 {
+			sc.Ops = append(sc.Ops, Op{Op: "referrers", N: 2, Ref: []string{"", "application/vnd.verif.sig", "application/vnd.verif.sbom"}[rng.Intn(3)]})
+			continue
+		}
+		switch {
 		case x < 10:
 			sc.Ops = append(sc.Ops, Op{Op: "push", N: node()})
 		case x < 25:
@@ -320,8 +384,11 @@ func genScenario(rng *rand.Rand, id int) Scenario {
 			sc.Ops = append(sc.Ops, Op{Op: "delete", N: node()})
 		case x < 84 && len(blobs) > 0:
 			sc.Ops = append(sc.Ops, Op{Op: "mount", N: blobs[rng.Intn(len(blobs))]})
-		case x < 90:
+		case x < 87:
 			sc.Ops = append(sc.Ops, Op{Op: "pred", N: node()})
+		case x < 90:
+			sc.Ops = append(sc.Ops, Op{Op: "referrers", N: node(), Ref: []string{"", "application/vnd.verif.sig", "application/vnd.verif.sbom",
+				"application/vnd.verif.art", vh.MTLayer}[rng.Intn(5)]})
 		case x < 94:
 			sc.Ops = append(sc.Ops, Op{Op: "tags"})
 		case len(blobs) > 0:
